@@ -413,6 +413,7 @@ func (e *Exec) invokeDeferred(fr *frame, d deferred) {
 }
 
 func (e *Exec) runBlock(fr *frame, b *ssa.BasicBlock, prev *ssa.BasicBlock) (next *ssa.BasicBlock, done bool, ret Value) {
+	e.noteBlock(b)
 	// phis first (parallel assignment)
 	nphi := 0
 	if fr.skipPhi == b {
@@ -963,4 +964,34 @@ func (e *Exec) guardMap(m ssa.Value, write bool) {
 	if m.Type().String() == g.MapType {
 		e.guardViolation("access to map "+g.MapType, write)
 	}
+}
+
+// noteBlock records basic-block coverage for functions of the module under test (not the harness files, not dependencies).
+func (e *Exec) noteBlock(b *ssa.BasicBlock) {
+	fn := b.Parent()
+	if fn == nil || fn.Pkg == nil || fn.Synthetic != "" || !strings.HasPrefix(fn.Pkg.Pkg.Path(), "github.com/TheManticoreProject/Manticore") {
+		return
+	}
+	name := fn.String()
+	bc := e.rep.Blocks[name]
+	if bc == nil {
+		if f := e.prog.Fset.Position(fn.Pos()).Filename; strings.Contains(f, "zz_verif_") {
+			e.rep.Blocks[name] = &BlockCov{Total: -1}
+			return
+		}
+		bc = &BlockCov{Total: len(fn.Blocks), Hit: map[int]bool{}, Line: map[int]int{}}
+		for _, blk := range fn.Blocks {
+			for _, in := range blk.Instrs {
+				if p := in.Pos(); p.IsValid() {
+					bc.Line[blk.Index] = e.prog.Fset.Position(p).Line
+					break
+				}
+			}
+		}
+		e.rep.Blocks[name] = bc
+	}
+	if bc.Total < 0 {
+		return
+	}
+	bc.Hit[b.Index] = true
 }
